@@ -76,6 +76,13 @@ type fakeChain struct {
 	holdReached chan struct{}
 	holdRelease chan struct{}
 
+	// limited: the backend is a full node still in initial block download — IsCurrent() is false and only the heights
+	// <= limitH of the best chain are served (GetBestBlock, GetBlockHash, BlockStamp, Rescan) until the wallet has
+	// polled IsCurrent twice: the second poll finds the node caught up (full chain, true).  curPolls counts the polls.
+	limited  bool
+	limitH   int32
+	curPolls int
+
 	// syncAttempts counts BackEnd() calls = syncWithChain attempts of the wallet (atomic; see wenv.waitSync)
 	syncAttempts int64
 }
@@ -298,8 +305,43 @@ func (fc *fakeChain) Stop() {
 }
 func (fc *fakeChain) WaitForShutdown() { <-fc.conn().quit }
 
+// armNotCurrent: see the `limited` field.
+func (fc *fakeChain) armNotCurrent(h int32) {
+	fc.mu.Lock()
+	defer fc.mu.Unlock()
+	fc.limited, fc.limitH, fc.curPolls = true, h, 0
+}
+
+// notCurrent reports whether the backend still serves the limited view; lift ends it.
+func (fc *fakeChain) notCurrent() bool {
+	fc.mu.Lock()
+	defer fc.mu.Unlock()
+	return fc.limited
+}
+
+func (fc *fakeChain) liftNotCurrent() {
+	fc.mu.Lock()
+	defer fc.mu.Unlock()
+	fc.limited = false
+}
+
+// vbest is the part of the best chain the backend serves to the wallet (fc.mu held).
+func (fc *fakeChain) vbest() []*fblock {
+	if fc.limited && int(fc.limitH)+1 < len(fc.best) {
+		return fc.best[:fc.limitH+1]
+	}
+	return fc.best
+}
+
+func (fc *fakeChain) vtip() *fblock {
+	fc.mu.Lock()
+	defer fc.mu.Unlock()
+	v := fc.vbest()
+	return v[len(v)-1]
+}
+
 func (fc *fakeChain) GetBestBlock() (*chainhash.Hash, int32, error) {
-	b := fc.tip()
+	b := fc.vtip()
 	h := b.hash
 	return &h, b.height, nil
 }
@@ -328,7 +370,7 @@ func (fc *fakeChain) GetBlockHash(height int64) (*chainhash.Hash, error) {
 		fc.mu.Lock()
 	}
 	defer fc.mu.Unlock()
-	if height < 0 || height >= int64(len(fc.best)) {
+	if height < 0 || height >= int64(len(fc.vbest())) {
 		return nil, errNoBlock
 	}
 	h := fc.best[height].hash
@@ -346,7 +388,19 @@ func (fc *fakeChain) GetBlockHeader(h *chainhash.Hash) (*wire.BlockHeader, error
 	return &hdr, nil
 }
 
-func (fc *fakeChain) IsCurrent() bool { return true }
+func (fc *fakeChain) IsCurrent() bool {
+	fc.mu.Lock()
+	defer fc.mu.Unlock()
+	if !fc.limited {
+		return true
+	}
+	fc.curPolls++
+	if fc.curPolls >= 2 {
+		fc.limited = false // the node has caught up
+		return true
+	}
+	return false
+}
 
 // FilterBlocks is the btcd client's implementation verbatim: the real chain.BlockFilterer over the batch.
 func (fc *fakeChain) FilterBlocks(req *chain.FilterBlocksRequest) (*chain.FilterBlocksResponse, error) {
@@ -389,7 +443,7 @@ func (fc *fakeChain) FilterBlocks(req *chain.FilterBlocksRequest) (*chain.Filter
 }
 
 func (fc *fakeChain) BlockStamp() (*waddrmgr.BlockStamp, error) {
-	b := fc.tip()
+	b := fc.vtip()
 	return &waddrmgr.BlockStamp{Height: b.height, Hash: b.hash, Timestamp: b.hdr.Timestamp}, nil
 }
 
@@ -404,12 +458,13 @@ func (fc *fakeChain) SendRawTransaction(tx *wire.MsgTx, _ bool) (*chainhash.Hash
 func (fc *fakeChain) Rescan(start *chainhash.Hash, addrs []btcutil.Address, outpoints map[wire.OutPoint]btcutil.Address) error {
 	fc.mu.Lock()
 	sb := fc.byHash[*start]
-	if sb == nil || int(sb.height) >= len(fc.best) || fc.best[sb.height] != sb {
+	vb := fc.vbest()
+	if sb == nil || int(sb.height) >= len(vb) || vb[sb.height] != sb {
 		fc.mu.Unlock()
 		return errors.New("fakechain: rescan start block not on the best chain")
 	}
-	blocks := append([]*fblock{}, fc.best[sb.height+1:]...)
-	tip := fc.best[len(fc.best)-1]
+	blocks := append([]*fblock{}, vb[sb.height+1:]...)
+	tip := vb[len(vb)-1]
 	fc.rescans++
 	c := fc.c
 	hook := fc.beforeFinish
